@@ -42,6 +42,11 @@ def project_sched(log):
 
     mig_target = {}
 
+    def pend(p):
+        # decrements already done in memory whose owner is only known at the resume event that follows (direct hand-off
+        # to a joiner): the model has not seen them yet
+        return sum(1 for q in pending_dec.values() if q == p)
+
     def next_push_pool(i, u):
         for j in range(i + 1, n):
             e = evs[j]
@@ -131,7 +136,7 @@ def project_sched(log):
                     if u is None or u not in known:
                         u = switching.get(tid)   # ... or the scheduler context finishing a unit's suspension
                     if u is not None and u in known:
-                        emit("checkNb %d %d" % (p, t3_s32(ev["cur"]) - extra.get(p, 0)))
+                        emit("checkNb %d %d" % (p, t3_s32(ev["cur"]) - extra.get(p, 0) + pend(p)))
                         emit("incB %d %d" % (u, p))
                     else:
                         extra[p] = extra.get(p, 0) + 1
@@ -142,7 +147,7 @@ def project_sched(log):
                     if u is None:
                         pending_dec[tid] = p      # the resume event of the unit it belongs to follows
                     elif isinstance(u, int):
-                        emit("checkNb %d %d" % (p, t3_s32(ev["cur"]) - extra.get(p, 0)))
+                        emit("checkNb %d %d" % (p, t3_s32(ev["cur"]) - extra.get(p, 0) + pend(p)))
                         emit("decB %d %d" % (u, p))
                     else:
                         extra[p] = extra.get(p, 0) - 1
@@ -189,7 +194,11 @@ def project_join(log):
             if ukind.get(ev["txt"][2]) == "ult" and uid(ev["txt"][3]) is not None:
                 targets.append(ev["txt"][3])
     res = []
+    seen_t = set()
     for tname in targets:
+        if tname in seen_t:
+            continue
+        seen_t.add(tname)
         lines = ["new"]
         junit = None
         jtid = None
@@ -201,6 +210,13 @@ def project_join(log):
         for ev in evs:
             t = ev["t"]
             if t == "E" and ev["kind"] in (1, 4) and ev["p1"] == tname:
+                if alive and ev["kind"] == 4:
+                    # revive: a new life of the same descriptor, a new hand-shake
+                    if done:
+                        res.append((tname, lines))
+                    lines = ["new"]
+                    junit = jtid = t_tid = None
+                    in_join = t_exiting = done = False
                 alive = True          # (re)creation of the descriptor named tname
                 continue
             if not alive:
